@@ -60,14 +60,18 @@ pub fn run_chain(out: &mut Out, rng: &mut Rng, c: &ChainCfg, what: &str) -> usiz
 }
 
 /// `content`: the PDU bytes (length c.plen) instead of random ones
+/// receiver storage this many bytes shorter than the PDU (0 = at least as long), for the families that ask for it
+static SHORT_STORAGE: std::sync::atomic::AtomicUsize = std::sync::atomic::AtomicUsize::new(0);
+
 pub fn run_chain_with(out: &mut Out, rng: &mut Rng, c: &ChainCfg, what: &str, content: Option<Vec<u8>>) -> usize {
     let pdu = match content {
         Some(b) => Pdu::new(out, b),
         None => Pdu::random(out, c.plen, rng),
     };
+    let short = SHORT_STORAGE.load(std::sync::atomic::Ordering::Relaxed);
     let small = Pdu::random(out, 5, rng);
     let mgr = TableMgr { known: vec![] };
-    let storage = c.plen.max(5).max(1) + c.extra_storage;
+    let storage = if short > 0 { c.plen.saturating_sub(short).max(1) } else { c.plen.max(5).max(1) + c.extra_storage };
     let active = out.begin(
         "chains",
         Obj::new().str("what", what).boolean("lock", true).raw("rx", &jrxcfg(c.slots, storage, &mgr).end()),
@@ -290,6 +294,39 @@ pub fn run(out: &mut Out, seed: u64, thorough: bool) {
             }
         }
     }
+    // every fragment id once (a two-packet train), every class of protocol type value, PDU lengths around the
+    // powers of two, and receivers whose storage is 1..3 bytes too short for the PDU (nothing may be delivered,
+    // nothing may be lost, nothing may panic)
+    for id in 0..=255u8 {
+        if !thorough && id % 3 != 0 && id < 250 && id > 5 {
+            continue;
+        }
+        let cfg = ChainCfg { plen: 10, label: labels[id as usize % 3], subst_first: id % 5 == 4 && id % 3 != 2, ptype: 0x0800, fragid: id, sched: vec![17, 4097], slots: 1 + (id as usize % 4), extra_storage: 0, reset_after: None };
+        run_chain(out, &mut rng, &cfg, "all_ids");
+    }
+    let mut pts: Vec<u16> = (0..=0xFFFFu32).step_by(if thorough { 97 } else { 509 }).map(|x| x as u16).collect();
+    pts.extend([0x0000u16, 0x00FF, 0x0100, 0x05FF, 0x0600, 0x0601, 0x07FF, 0x0800, 0x7FFF, 0x8000, 0xFF00, 0xFFFE, 0xFFFF]);
+    for (i, pt) in pts.iter().enumerate() {
+        let cfg = ChainCfg { plen: 6, label: labels[i % 3], subst_first: false, ptype: *pt, fragid: 1, sched: vec![if i % 2 == 0 { 4097 } else { 14 }, 4097], slots: 2, extra_storage: 0, reset_after: None };
+        run_chain(out, &mut rng, &cfg, "ptype_sweep");
+    }
+    for e in 7..=15u32 {
+        for d in [-1i64, 0, 1] {
+            let plen = ((1i64 << e) + d) as usize;
+            let cfg = ChainCfg { plen, label: labels[e as usize % 3], subst_first: e % 2 == 0 && e % 3 != 2, ptype: 0x86DD, fragid: e as u8, sched: vec![4097; 12], slots: 2, extra_storage: 0, reset_after: None };
+            run_chain(out, &mut rng, &cfg, "pow2_len");
+        }
+    }
+    for short in 1..=3usize {
+        SHORT_STORAGE.store(short, std::sync::atomic::Ordering::Relaxed);
+        for (li, label) in labels.iter().enumerate() {
+            for (si, sched) in [vec![4097usize], vec![20, 4097], vec![20, 13, 4097]].iter().enumerate() {
+                let cfg = ChainCfg { plen: 30 + li, label: *label, subst_first: si == 1 && li != 2, ptype: 0x0800, fragid: (short * 16 + si) as u8, sched: sched.clone(), slots: 2, extra_storage: 0, reset_after: None };
+                run_chain(out, &mut rng, &cfg, "short_storage");
+            }
+        }
+    }
+    SHORT_STORAGE.store(0, std::sync::atomic::Ordering::Relaxed);
     // the longest PDUs a re-use first fragment can carry (the total length counts no label bytes), cut so that the
     // last intermediate fragment ends 0..6 bytes before the end of the PDU: the receiver's length bookkeeping
     // must use the label as written, not the label it resolved
